@@ -30,7 +30,7 @@ Bind(r, m) == LET keys == {Key(r.obs[j]) : j \in DOMAIN r.obs} IN
                                            ELSE VerdictOf(r.obs[CHOOSE j \in DOMAIN r.obs : Key(r.obs[j]) = k])]
 Empty == [k \in {} |-> 0]
 TInit == l = 1 /\ gid = "" /\ memo = Empty
-         /\ sd = [fields |-> {}, policy |-> "NONE", inst |-> <<>>, unknown |-> FALSE, sp |-> DefSp, done |-> TRUE]
+         /\ sd = [fields |-> {}, policy |-> "NONE", tgt |-> "field", inst |-> <<>>, unknown |-> FALSE, sp |-> DefSp, done |-> TRUE]
 TNext == /\ l <= Len(Trace)
          /\ LET r == Trace[l]
                 m == IF r.gid = gid THEN memo ELSE Empty
